@@ -502,6 +502,32 @@ impl QVisitor for PathV<'_> {
                     if self.arg >= 1000 && (r.is_ok() || r2.is_ok() || r3.is_ok()) {
                         flags.push("C05: a list of three handles naming one entity twice was accepted: two unique references to the same components".to_string());
                     }
+                    // the prepared view answers like the plain one, item by item in argument order
+                    let pq = self
+                        .prepared
+                        .entry(self.qidx)
+                        .or_insert_with(|| Box::new(PreparedQuery::<Q>::new()))
+                        .downcast_mut::<PreparedQuery<Q>>()
+                        .unwrap();
+                    let r4 = std::panic::catch_unwind(std::panic::AssertUnwindSafe(|| {
+                        let mut a = Vec::new();
+                        let mut v = pq.view_mut(w);
+                        for r in v.get_many_mut(tri) {
+                            match r {
+                                None => a.push(0),
+                                Some(i) => {
+                                    a.push(1);
+                                    i.enc(&mut a);
+                                }
+                            }
+                        }
+                        a
+                    }));
+                    match (&r2, &r4) {
+                        (Ok(b), Ok(d)) if b == d => {}
+                        (Err(_), Err(_)) => {}
+                        _ => flags.push("C17/C08: PreparedView::get_many_mut and View::get_many_mut disagree on three handles".to_string()),
+                    }
                     match (r, r2, r3) {
                         (Ok(a), Ok(b), Ok(c)) => {
                             if b != c {
